@@ -1,6 +1,7 @@
 import LZ4V.Judge.Block
 import LZ4V.Spec.Frame
 import Std.Data.HashMap
+import LZ4V.Model.FrameC
 /-!
 # Judge for frame records
 
@@ -17,6 +18,38 @@ open LZ4V.Spec LZ4V.Spec.Frame
 def dictOf (blobs : Std.HashMap Nat ByteArray) (dictSize : Nat) : ByteArray :=
   let blob := blobs.getD 1 ByteArray.empty
   blob.extract (blob.size - dictSize) blob.size
+
+/-- correspondence of the buffering state machine: the call history recorded by the harness is replayed on
+    `Model.FrameC`; the sizes of the blocks it predicts must be the decoded sizes of the blocks of the real frame -/
+def judgeFrameOps (r : Rec) (parsedSizes : List Nat) (bs : Nat) (autoFlush : Bool) : List (String × String) := Id.run do
+  if r.args.size < 15 then return []
+  let ops := r.bytes 14
+  let input := r.bytes 12
+  if ops.size == 0 || input.size > 3000000 then return []
+  let inp := input.toList
+  let mut p := 0
+  let mut pos := 0
+  let mut hist : List LZ4V.Model.FrameC.Op := []
+  while p < ops.size do
+    let code := ops.get! p
+    if code == 70 then
+      hist := .flush :: hist; p := p + 1
+    else if code == 119 then     -- one LZ4F_write call (lz4file.c): maxWriteSize = the block size
+      let n := rdLE ops (p+1) 4
+      hist := (LZ4V.Model.FrameC.writeOps bs [(inp.drop pos).take n]).reverse ++ hist
+      pos := pos + n; p := p + 5
+    else
+      let n := rdLE ops (p+1) 4
+      hist := .update ((inp.drop pos).take n) (code == 117) :: hist
+      pos := pos + n; p := p + 5
+  let full := (LZ4V.Model.FrameC.Op.begin bs autoFlush :: hist.reverse) ++ [.finish]
+  match LZ4V.Model.FrameC.run {} full with
+  | .error _ => return [("frame_model_rejects_history", s!"ops={ops.size} bytes")]
+  | .ok (_, blocks) =>
+    let sizes := blocks.map (·.length)
+    if sizes != parsedSizes then
+      return [("frame_block_structure_differs_from_model", s!"model blocks {sizes.take 12} real blocks {parsedSizes.take 12} (counts {sizes.length} vs {parsedSizes.length})")]
+    return []
 
 def judgeFrame (blobs : Std.HashMap Nat ByteArray) (r : Rec) : Verdict := Id.run do
   let kind := r.nat 0
@@ -54,6 +87,8 @@ def judgeFrame (blobs : Std.HashMap Nat ByteArray) (r : Rec) : Verdict := Id.run
     for bi in f.blocks do
       if !bi.raw && bi.csize ≥ bi.dsize then
         v := { v with fails := ("compressed_block_not_smaller", s!"csize={bi.csize} dsize={bi.dsize}") :: v.fails }
+    if kind == 0 then
+      for x in judgeFrameOps r (f.blocks.toList.map (·.dsize)) (blockSizeOf h.bsid) (r.nat 8 != 0) do v := { v with fails := x :: v.fails }
     let nraw := (f.blocks.filter (·.raw)).size
     v := { v with tags := [s!"kind.{kind}", s!"bsid.{h.bsid}", if h.blockIndep then "indep" else "linked", if h.blockChecksum then "bcrc" else "nobcrc",
                             if h.contentChecksum then "ccrc" else "noccrc", if h.contentSize.isSome then "csize" else "nocsize",
@@ -121,6 +156,12 @@ def judgeGenFunc (r : Rec) : Verdict := Id.run do
   let d := r.int 4
   let e := r.int 5
   let want := r.int 6
+  if fn == 5 then
+    -- written ≤ worstUpdate (Properties/C10.lean): a = srcSize, b = block size id, c = blockChecksumFlag, d = buffered, want = bytes written
+    let bs : Int := if b == 5 then 262144 else if b == 6 then 1048576 else if b == 7 then 4194304 else 65536
+    let worst := ((a + d) / bs) * (4 + bs + 4 * c)
+    if want > worst then return { fails := [("update_wrote_more_than_model_worst_case", s!"srcSize={a} bsid={b} bcrc={c} buffered={d} written={want} worstUpdate={worst}")] }
+    return { tags := ["genfunc.5"] }
   let prefs : Option LZ4V.Gen.LZ4F_preferences_t :=
     if b < 0 then none else some { frameInfo := { blockSizeID := b, blockChecksumFlag := c, contentChecksumFlag := d }, autoFlush := e }
   let got : Int :=
